@@ -1,6 +1,6 @@
 """C17 — the chunk queue is an exact FIFO byte stream under all operations and
 temp-file write faults; reset releases every temp file and descriptor."""
-import zlib
+import time, zlib
 from .. import common as C
 
 MANIFEST = dict(
@@ -632,6 +632,128 @@ def checked(line, out):
         return None
 
 
+# ---- file chunks beyond 2^31 / 2^32 octets (sparse files): the Lean model's lengths are unbounded naturals and its
+# theorems hold for every length; what ties them to the C at these sizes is this stream (no model run: the model
+# materialises file contents; the reference is the byte function below, written from the op's definition)
+_MK = bytes(65 + i % 23 for i in range(64))
+_TAIL = bytes(97 + i % 26 for i in range(1 << 20))
+
+
+def big_ref(length, tl, a, b):
+    """octets a..b-1 of  file-range(length octets: marker block, zeros, marker block) ++ tail(tl octets)"""
+    b = min(b, length + tl)
+    if a >= b:
+        return b""
+    out = bytearray(b - a)
+    if length >= 64:
+        for blk in (0, length - 64):
+            lo, hi = max(a, blk), min(b, blk + 64, length)
+            if lo < hi:
+                out[lo - a:hi - a] = _MK[lo - blk:hi - blk]
+    lo = max(a, length)
+    if lo < b:
+        out[lo - a:b - a] = _TAIL[lo - length:b - length]
+    return bytes(out)
+
+
+def big_cases(rng, quick):
+    G = 1 << 32
+    L = []
+    rems = [0, 1, 100, 4095, 4096, 8191, 8192, 70000]
+    for m in (1, 2):
+        for r_ in rems:
+            length = m * G + r_
+            for off in (0, 5, G - 3):
+                for pn, rn in ((8192, 4096), (100, 100), (65536, 8192), (r_ + 10, r_ + 10)):
+                    L.append("big %d %d %d %d %d %d" % (off + length, off, length, 300, pn, rn))
+    for length in ((1 << 31) - 1, 1 << 31, (1 << 31) + 1, (1 << 31) + 4096, G - 1, G - 4096):
+        for pn, rn in ((8192, 4096), (65536, 65536)):
+            L.append("big %d %d %d %d %d %d" % (length + 7, 7, length, 300, pn, rn))
+    # controls: small ranges where the peek and the read run over the end of the file chunk into the memory chunk
+    for length in (0, 1, 63, 64, 128, 4096, 12000, 70000):
+        for pn, rn in ((8192, 4096), (100, 100), (65536, 8192), (length + 50, length + 50)):
+            L.append("big %d %d %d %d %d %d" % (length + 11, 11, length, 300, pn, min(rn, length + 300)))
+    for _ in range(40 if quick else 400):
+        m = rng.choice([0, 0, 1, 1, 2, 3])
+        length = m * G + rng.choice(rems + [rng.randrange(1, 200000)])
+        if length < 128 and length >= 64:
+            length = 128
+        off = rng.choice([0, 1, 4096, G, G + 17])
+        tl = rng.choice([0, 1, 300, 9000])
+        pn = rng.choice([1, 100, 4096, 8192, 8193, 65536])
+        rn = min(rng.choice([1, 100, 4096, 8192, 65536]), length + tl)
+        L.append("big %d %d %d %d %d %d" % (off + length, off, length, tl, pn, rn))
+    return [l for l in L if not (64 <= int(l.split()[3]) < 128)]
+
+
+def big_oracle(line, out):
+    t = line.split(" ")
+    length, tl, pn, rn = int(t[3]), int(t[4]), int(t[5]), int(t[6])
+    total = length + tl
+    if out == "big:nofile":
+        return None                     # no sparse files here: not judged
+    f = dict(x.split(":", 1) for x in out.split(" ") if ":" in x)
+    try:
+        if int(f["len"]) != total:
+            return "chunkqueue_length() differs from the octets queued"
+        rc, dlen, crc = f["pk"].split(",")
+        if int(rc) != 0:
+            return "peek of a readable queue failed"
+        dlen = int(dlen)
+        if dlen > pn or dlen > total:
+            return "peek returned more octets than asked for / than are queued"
+        if dlen == 0 and pn > 0 and total > 0:
+            return "peek returned nothing from a non-empty queue"
+        if int(crc, 16) != (zlib.crc32(big_ref(length, tl, 0, dlen)) & 0xffffffff):
+            return "peeked octets are not the head of the queued stream (order / content)"
+        if rn <= total:
+            r = f["rd"].split(",")
+            if r[0] != "0":
+                return "read of queued octets failed"
+            if int(r[1], 16) != (zlib.crc32(big_ref(length, tl, 0, rn)) & 0xffffffff):
+                return "octets read are not the head of the queued stream (order / content)"
+            if int(f["left"]) != total - rn or int(f["out"]) != rn:
+                return "length / bytes_out after the read differ from the octets consumed"
+    except (KeyError, ValueError, IndexError):
+        return "unparseable observation: " + out[:80]
+    return None
+
+
+def big_stream(ctx, exe):
+    t0 = time.time()
+    lines = big_cases(ctx.rng, ctx.quick)
+    outs, rc, err = C.parallel_lines([exe], lines)
+    if rc != 0 or len(outs) != len(lines):
+        outs, rc, err = C.parallel_lines([exe], lines)
+    if rc != 0 or len(outs) != len(lines):
+        bad = lines[min(len(outs), len(lines) - 1)]
+        ctx.violation("crash:cq-big:%s" % bad, "implementation crashed / sanitizer report in the large-file stream",
+                      {"property": ctx.pid, "kind": "sanitizer-or-crash", "correspondence": "cq(file chunks beyond 2^32)",
+                       "input": bad, "stderr": (err or "")[-3000:]}, found=True)
+        return
+    hits = 0
+    nojudge = 0
+    for l, o in zip(lines, outs):
+        ctx.evaluations += 1
+        length = int(l.split(" ")[3])
+        cls = "ge2^32" if length >= (1 << 32) else ("ge2^31" if length >= (1 << 31) else "small")
+        ctx.dist["big:" + cls] += 1
+        if o == "big:nofile":
+            nojudge += 1
+            continue
+        v = big_oracle(l, o)
+        ctx.keys["big:%s:%s" % (cls, "ok" if v is None else v[:30])] += 1
+        if v:
+            hits += 1
+            ctx.violation("oracle:cq-big:%s" % v[:60], v + " (file chunk of %d octets)" % length,
+                          {"property": ctx.pid, "kind": "property-oracle", "correspondence": "cq(file chunks beyond 2^32)",
+                           "input": l, "impl_obs": o, "oracle_verdict": v}, found=True)
+    if nojudge:
+        ctx.notes.append("large-file stream: %d cases not judged (sparse file could not be created)" % nojudge)
+    ctx.streams.append({"name": "cq(file chunks beyond 2^31 / 2^32 octets, sparse files; reference oracle only, no model run)",
+                        "cases": len(lines), "disagreements": 0, "oracle_hits": hits, "wall_s": round(time.time() - t0, 2)})
+
+
 def run(ctx):
     exe, err = C.build_harness("h_cq")
     if exe is None:
@@ -664,6 +786,7 @@ def run(ctx):
         # stream is not judged (one report per defect instead of misaligned noise)
         ctx.differential(name, ["timeout", "-s", "KILL", limit, exe], "cq", lines, checked, classify,
                          stateless=not name.startswith("cq(0-length"))
+    big_stream(ctx, exe)
     ctx.faults_fired += FIRED[0]
     ctx.exhaustive = False
     ctx.notes.append("exhaustive: all op sequences of length 3 over a %d-op alphabet; in %d spill sequences of "
